@@ -11,10 +11,14 @@ import ParolModel.Props.C08
 * `DS_of_yield` — the classical completeness argument: if the lookahead automata predict exactly
   (`TablesExact`), every derivation `Yield` of the remaining input from the stack symbols, in a
   right context that is reachable from the start symbol (`KS.FollowCtx`), is traversed by the parser.
+* `YieldN` — derivations with their number of production applications; `llRun_complete_sized`:
+  fuel `|w| + 2·m` suffices, the run makes `|w| + 2·m − 1` loop iterations and `m` actions.
 * `tablesExact_of_sets` / `tablesExactB_sound` — two ways to establish `TablesExact`: from
   "the automaton accepts exactly the strong-LL(k) lookahead strings of each production" (C07's
   conclusion about C05's sets, with C08's theorems about `eval`), and from a verified executable
-  check against the reference FIRST_k / FOLLOW_k computation. -/
+  check against the reference FIRST_k / FOLLOW_k computation.
+* `setsExactB_sound` — the set-level premise `SetsExact` is itself decidable on concrete tables
+  (enumeration of the automaton's accepted strings against the reference sets). -/
 namespace ParolModel
 open KS
 
@@ -75,6 +79,45 @@ theorem predict_of_exact {T : LLTables} (hE : TablesExact T) {i : Nat} {pr : LLP
   simp only [predict, hd, laTypes_eq, hin]
   rw [this]; rfl
 
+/-! ## sized derivations -/
+
+/-- `Yield` with the number of production applications (the size of the derivation tree). -/
+inductive YieldN (G : Grammar) : Nat → List Sym → List Nat → Prop
+  | nil : YieldN G 0 [] []
+  | term (a : Nat) {m ss w} : YieldN G m ss w → YieldN G m (.t a :: ss) (a :: w)
+  | nonterm (p : Rule) {m1 m2 ss u v} : p ∈ G.prods → YieldN G m1 p.rhs u → YieldN G m2 ss v →
+      YieldN G (m1 + m2 + 1) (.n p.lhs :: ss) (u ++ v)
+
+theorem YieldN.yield {G : Grammar} {m ss w} (h : YieldN G m ss w) : Yield G ss w := by
+  induction h with
+  | nil => exact .nil
+  | term a _ ih => exact .term a ih
+  | nonterm p hp _ _ ih1 ih2 => exact .nonterm p hp ih1 ih2
+
+theorem Yield.sized {G : Grammar} {ss w} (h : Yield G ss w) : ∃ m, YieldN G m ss w := by
+  induction h with
+  | nil => exact ⟨0, .nil⟩
+  | term a _ ih => obtain ⟨m, hm⟩ := ih; exact ⟨m, .term a hm⟩
+  | nonterm p hp _ _ ih1 ih2 =>
+    obtain ⟨m1, h1⟩ := ih1; obtain ⟨m2, h2⟩ := ih2
+    exact ⟨m1 + m2 + 1, .nonterm p hp h1 h2⟩
+
+theorem yieldN_nt_inv {G : Grammar} {m x : Nat} {w : List Nat} (h : YieldN G m [.n x] w) :
+    ∃ p m1, p ∈ G.prods ∧ p.lhs = x ∧ YieldN G m1 p.rhs w ∧ m = m1 + 1 := by
+  generalize hs : [Sym.n x] = ss at h
+  cases h with
+  | nil => cases hs
+  | term a _ => cases hs
+  | @nonterm p m1 m2 ss u v hp hr htl =>
+    injection hs with h1 h2
+    subst h2
+    injection h1 with h1
+    generalize hnil : ([] : List Sym) = e at htl
+    cases htl with
+    | nil => exact ⟨p, m1, hp, h1.symm, by simpa using hr, rfl⟩
+    | term a _ => cases hnil
+    | nonterm q _ _ _ => cases hnil
+
 /-! ## from a derivation to the declarative parse -/
 
 theorem sigTypes_cons_inv : ∀ (inp : List MTok) (a : Nat) (w : List Nat), sigTypes inp = a :: w →
@@ -94,37 +137,39 @@ theorem sigTypes_cons_inv : ∀ (inp : List MTok) (a : Nat) (w : List Nat), sigT
       simp only [sigTypes, sigToks_cons_sig hs', List.map_cons, List.cons.injEq] at h
       exact ⟨t, rest, h1, hs', h.1, h.2⟩
 
-/-- **Completeness, declarative form.** With exact automata, every derivation of a prefix `w` of the
-    remaining input from a symbol string `ss`, whose right context `γ` derives the rest `v` and is
-    reachable (every non-terminal occurrence in `ss` has `FollowCtx`), is parsed by the model. -/
-theorem DS_of_yield (T : LLTables) (hE : TablesExact T) {ss : List Sym} {w : List Nat}
-    (h : Yield (gOf T) ss w) :
+/-- **Completeness, declarative form.** With exact automata, every derivation (with `m` production
+    applications) of a prefix `w` of the remaining input from a symbol string `ss`, whose right
+    context `γ` derives the rest `v` and is reachable (every non-terminal occurrence in `ss` has
+    `FollowCtx`), is parsed by the model, with `m` semantic actions. -/
+theorem DS_of_yield (T : LLTables) (hE : TablesExact T) {m : Nat} {ss : List Sym} {w : List Nat}
+    (h : YieldN (gOf T) m ss w) :
     ∀ (γ : List Sym) (v : List Nat) (inp : List MTok),
       (∀ α B β, ss = α ++ Sym.n B :: β → FollowCtx (gOf T) B (β ++ γ)) →
       Yield (gOf T) γ v → sigTypes inp = w ++ v →
-      ∃ mid acts tr cm items, DS T (ss.map symPT) inp mid acts tr cm items ∧ sigTypes mid = v := by
+      ∃ mid acts tr cm items, DS T (ss.map symPT) inp mid acts tr cm items ∧ sigTypes mid = v ∧
+        acts.length = m := by
   induction h with
   | nil =>
     intro γ v inp _ _ hin
-    exact ⟨inp, [], [], [], [], .nil, by simpa using hin⟩
-  | @term a ss w _ ih =>
+    exact ⟨inp, [], [], [], [], .nil, by simpa using hin, rfl⟩
+  | @term a m ss w _ ih =>
     intro γ v inp hctx hv hin
     obtain ⟨tok, rest', hrest, hskip, hty, hsig⟩ := sigTypes_cons_inv inp a (w ++ v) (by simpa using hin)
-    obtain ⟨mid, acts, tr, cm, items, hds, hmid⟩ := ih γ v rest'
+    obtain ⟨mid, acts, tr, cm, items, hds, hmid, hlen⟩ := ih γ v rest'
       (fun α B β hss => hctx (.t a :: α) B β (by simp [hss])) hv hsig
-    exact ⟨mid, _, _, _, _, DS.tok tok hrest hskip hty hds, hmid⟩
-  | @nonterm p ss u v' hp hr hs ih1 ih2 =>
+    exact ⟨mid, _, _, _, _, DS.tok tok hrest hskip hty hds, hmid, hlen⟩
+  | @nonterm p m1 m2 ss u v' hp hr hs ih1 ih2 =>
     intro γ v inp hctx hv hin
     obtain ⟨i, pr, hpr, rfl⟩ := mem_gOf_prods hp
     have hA : FollowCtx (gOf T) pr.lhs (ss ++ γ) := hctx [] pr.lhs ss rfl
-    have hrest : Yield (gOf T) (ss ++ γ) (v' ++ v) := Yield.append hs hv
+    have hrest : Yield (gOf T) (ss ++ γ) (v' ++ v) := Yield.append hs.yield hv
     have hin' : sigTypes inp = u ++ (v' ++ v) := by rw [hin, List.append_assoc]
-    have hpred := predict_of_exact hE hpr hr hA hrest hin'
-    obtain ⟨mid1, acts1, tr1, cm1, items1, hds1, hmid1⟩ := ih1 (ss ++ γ) (v' ++ v) inp
+    have hpred := predict_of_exact hE hpr hr.yield hA hrest hin'
+    obtain ⟨mid1, acts1, tr1, cm1, items1, hds1, hmid1, hlen1⟩ := ih1 (ss ++ γ) (v' ++ v) inp
       (fun α B β hss => by
         have := FollowCtx.step (ruleOf pr) hp α β (ss ++ γ) B hss hA
         simpa [List.append_assoc] using this) hrest hin'
-    obtain ⟨mid2, acts2, tr2, cm2, items2, hds2, hmid2⟩ := ih2 γ v mid1
+    obtain ⟨mid2, acts2, tr2, cm2, items2, hds2, hmid2, hlen2⟩ := ih2 γ v mid1
       (fun α B β hss => hctx (.n pr.lhs :: α) B β (by simp [ruleOf, hss])) hv hmid1
     have hrhs : (ruleOf pr).rhs.map symPT = pr.rhsRev.reverse := by
       simp only [ruleOf]
@@ -132,31 +177,36 @@ theorem DS_of_yield (T : LLTables) (hE : TablesExact T) {ss : List Sym} {w : Lis
       intro x hx
       exact hE.noMarker pr (List.mem_of_getElem? hpr) x (by simpa using hx)
     rw [hrhs] at hds1
-    exact ⟨mid2, _, _, _, _, DS.nt i pr hpred hpr hds1 hds2, hmid2⟩
+    exact ⟨mid2, _, _, _, _, DS.nt i pr hpred hpr hds1 hds2, hmid2, by simp [hlen1, hlen2]; omega⟩
 
 /-! ## from the declarative parse to the big-step run -/
 
+theorem sigToks_of_afterSkips {inp rest' : List MTok} {tok : MTok} (h : afterSkips inp = tok :: rest')
+    (hs : tok.skip = false) : sigToks inp = tok :: sigToks rest' := by
+  rw [← sigToks_afterSkips, h, sigToks_cons_sig hs]
+
 /-- Inverse of `SD_decompose`: a declarative parse of `syms` followed by a run of `rest` is a run
-    of `syms ++ rest`. -/
+    of `syms ++ rest`; it adds one loop iteration per consumed token and two per semantic action. -/
 theorem DS_SD (T : LLTables) {syms : List PT} {inp mid : List MTok} {acts1 tr1 cm1 items}
     (h : DS T syms inp mid acts1 tr1 cm1 items) :
     ∀ (rest : List PT) (pt : List PTItem) (n2 : Nat) (r : List MTok) acts2 tr2 cm2 ptOut,
       SD T n2 rest mid (items.reverse ++ pt) r acts2 tr2 cm2 ptOut →
-      ∃ n, n2 ≤ n ∧ SD T n (syms ++ rest) inp pt r (acts1 ++ acts2) (tr1 ++ tr2) (cm1 ++ cm2) ptOut := by
+      ∃ n, n + (sigToks mid).length = n2 + (sigToks inp).length + 2 * acts1.length ∧
+        SD T n (syms ++ rest) inp pt r (acts1 ++ acts2) (tr1 ++ tr2) (cm1 ++ cm2) ptOut := by
   induction h with
   | nil =>
     intro rest pt n2 r acts2 tr2 cm2 ptOut hsd
-    exact ⟨n2, Nat.le_refl _, by simpa using hsd⟩
+    exact ⟨n2, by simp, by simpa using hsd⟩
   | @tok a ss inp rest' r0 acts tr cm items tok hrest hskip hty _ ih =>
     intro rest pt n2 r acts2 tr2 cm2 ptOut hsd
-    obtain ⟨n, hle, hsd'⟩ := ih rest (.tok tok.id tok.ty :: pt) n2 r acts2 tr2 cm2 ptOut
+    obtain ⟨n, hn, hsd'⟩ := ih rest (.tok tok.id tok.ty :: pt) n2 r acts2 tr2 cm2 ptOut
       (by simpa using hsd)
-    refine ⟨n + 1, by omega, ?_⟩
+    refine ⟨n + 1, by rw [sigToks_of_afterSkips hrest hskip]; simp; omega, ?_⟩
     have := SD.tok tok hrest hskip hty hsd'
     simpa [List.append_assoc] using this
   | @nt a ss inp mid1 r0 acts1 acts2' tr1 tr2' cm1 cm2' items1 items2 p pr hp hpr hds1 _ ih1 ih2 =>
     intro rest pt n2 r acts2 tr2 cm2 ptOut hsd
-    obtain ⟨n, hle, hsd2⟩ := ih2 rest (.nt pr.lhs :: pt) n2 r acts2 tr2 cm2 ptOut (by simpa using hsd)
+    obtain ⟨n, hn, hsd2⟩ := ih2 rest (.nt pr.lhs :: pt) n2 r acts2 tr2 cm2 ptOut (by simpa using hsd)
     have hl : items1.length = pr.rhsRev.length := by rw [DS_items_length hds1]; simp
     have htake : ((items1.reverse ++ PTItem.nt pr.lhs :: pt).take pr.rhsRev.length).reverse = items1 := by
       rw [← hl, ← List.length_reverse, List.take_left]; simp
@@ -165,8 +215,8 @@ theorem DS_SD (T : LLTables) {syms : List PT} {inp mid : List MTok} {acts1 tr1 c
     have hsdE := SD.e (pt := items1.reverse ++ PTItem.nt pr.lhs :: pt) p pr hpr
       (by simp [hl]) (by rw [hdrop]; exact hsd2)
     rw [htake] at hsdE
-    obtain ⟨n', hle', hsd1⟩ := ih1 (.e p :: (ss ++ rest)) (.nt pr.lhs :: pt) (n + 1) r _ _ _ ptOut hsdE
-    refine ⟨n' + 1, by omega, ?_⟩
+    obtain ⟨n', hn', hsd1⟩ := ih1 (.e p :: (ss ++ rest)) (.nt pr.lhs :: pt) (n + 1) r _ _ _ ptOut hsdE
+    refine ⟨n' + 1, by simp; omega, ?_⟩
     have := SD.nt p pr hp hpr hsd1
     simpa [List.append_assoc] using this
 
@@ -290,33 +340,52 @@ theorem firstSig_afterSkips_none {mid : List MTok} (h : sigTypes mid = []) :
   have : sigToks mid = [] := by simpa [sigTypes] using h
   simp [firstSig, sigToks_afterSkips, this]
 
-/-- **Completeness of the run**, with fuel monotonicity: for a sentence there is a bound `n` (the
-    number of loop iterations of the successful run) such that every fuel above `n` gives `ok`. -/
-theorem llRun_complete (T : LLTables) (hE : TablesExact T) (o : Opts) (ho : o.maxDepth = none)
-    (toks : List MTok) (hw : Lang (gOf T) (sigTypes toks)) :
-    ∃ n, ∀ fuel, n < fuel → (llRun T o fuel toks).res = .ok := by
-  obtain ⟨p, hp, hl, hr⟩ := yield_nt_inv hw
+/-- **Completeness of the run, explicit fuel**: a sentence with a derivation of `m` production
+    applications is accepted with every fuel `≥ |w| + 2·m`; the loop makes `|w| + 2·m − 1` iterations
+    (one per token, two per production, the first prediction happens before the loop) and emits
+    `m` semantic actions. -/
+theorem llRun_complete_sized (T : LLTables) (hE : TablesExact T) (o : Opts) (ho : o.maxDepth = none)
+    (toks : List MTok) (m : Nat) (hw : YieldN (gOf T) m [.n T.start] (sigTypes toks)) (fuel : Nat)
+    (hf : (sigTypes toks).length + 2 * m ≤ fuel) :
+    (llRun T o fuel toks).res = .ok ∧ (llRun T o fuel toks).steps + 1 = (sigTypes toks).length + 2 * m ∧
+      (llRun T o fuel toks).actions.length = m := by
+  obtain ⟨p, m1, hp, hl, hr, rfl⟩ := yieldN_nt_inv hw
   obtain ⟨i, pr, hpr, rfl⟩ := mem_gOf_prods hp
   have hl' : pr.lhs = T.start := hl
   have hstart : FollowCtx (gOf T) pr.lhs [] := by
     rw [hl']; exact FollowCtx.start (G := gOf T)
-  have hpred := predict_of_exact hE hpr (inp := toks) hr hstart .nil (by simp)
+  have hpred := predict_of_exact hE hpr (inp := toks) hr.yield hstart .nil (by simp)
   rw [hl'] at hpred
-  obtain ⟨mid, acts, tr, cm, items, hds, hmid⟩ := DS_of_yield T hE hr [] [] toks
+  obtain ⟨mid, acts, tr, cm, items, hds, hmid, hacts⟩ := DS_of_yield T hE hr [] [] toks
     (fun α B β hss => FollowCtx.step (ruleOf pr) hp α β [] B hss hstart) .nil (by simp)
   rw [rhs_map_symPT hE hpr] at hds
   have hlen : items.length = pr.rhsRev.length := by rw [DS_items_length hds]; simp
   have hsdE := SD.e (T := T) (pt := items.reverse ++ [PTItem.nt pr.lhs]) i pr hpr (by simp [hlen])
     (SD.done (inp := mid))
-  obtain ⟨n, _, hsd⟩ := DS_SD T hds [.e i] [.nt pr.lhs] 1 mid _ _ _ _ hsdE
-  refine ⟨n, fun fuel hf => ?_⟩
+  obtain ⟨n, hn, hsd⟩ := DS_SD T hds [.e i] [.nt pr.lhs] 1 mid _ _ _ _ hsdE
+  have hmid0 : sigToks mid = [] := by simpa [sigTypes] using hmid
+  have hn' : n = (sigTypes toks).length + 2 * m1 + 1 := by
+    simp only [hmid0, List.length_nil, Nat.add_zero] at hn
+    simp only [sigTypes, List.length_map]
+    omega
   have hb : BottomOK (pr.rhsRev.reverse ++ [PT.e i]) := by simp [BottomOK, List.getLast?_append]
   have hnn : ¬ (Int.ofNat i < 0) := by simp
   have htn : (Int.ofNat i).toNat = i := rfl
   unfold llRun
   simp only [hpred, hnn, htn, pushProduction, hpr, ho, if_false]
-  rw [SD_llLoop T o ho hsd (firstSig_afterSkips_none hmid) _ 0 fuel rfl rfl rfl hb hf]
-  rfl
+  rw [SD_llLoop T o ho hsd (firstSig_afterSkips_none hmid) _ 0 fuel rfl rfl rfl hb (by omega)]
+  refine ⟨rfl, ?_, ?_⟩
+  · simp only [okOut]; omega
+  · simp [okOut, hacts]
+
+/-- **Completeness of the run**, with fuel monotonicity: for a sentence there is a bound `n` such
+    that every fuel above `n` gives `ok`. -/
+theorem llRun_complete (T : LLTables) (hE : TablesExact T) (o : Opts) (ho : o.maxDepth = none)
+    (toks : List MTok) (hw : Lang (gOf T) (sigTypes toks)) :
+    ∃ n, ∀ fuel, n < fuel → (llRun T o fuel toks).res = .ok := by
+  obtain ⟨m, hm⟩ := Yield.sized hw
+  exact ⟨(sigTypes toks).length + 2 * m, fun fuel hf =>
+    (llRun_complete_sized T hE o ho toks m hm fuel (by omega)).1⟩
 
 /-! ## establishing `TablesExact` (1): from the lookahead sets -/
 
@@ -566,5 +635,168 @@ theorem tablesExactB_sound (T : LLTables) (fuel : Nat) (h : tablesExactB T fuel 
       rw [pad_tuple (u ++ v) d.k d.k (Nat.le_refl _), eval_take] at this
       rw [eval_take]
       exact this
+
+/-! ## establishing `SetsExact`: a verified executable check
+
+The accepted language of an automaton without long paths is enumerated (`laAccepted`, `laDeep`) and
+compared, in both directions, with the reference lookahead sets. -/
+
+theorem LA_iff_laRef {G : Grammar} {k fuel A : Nat} {α : List Sym} {S : TSet}
+    (h : laRef G k fuel A α = some S) (t : List Nat) : LA G k A α t ↔ t ∈ S := by
+  constructor
+  · rintro ⟨u, f, hu, hf, rfl⟩
+    obtain ⟨γ, v, hc, hv, rfl⟩ := followK_iff_ctx.1 hf
+    have := mem_laRef h hu hc hv
+    rwa [List.append_assoc, ← take_append_take_right] at this
+  · intro ht
+    unfold laRef at h
+    split at h
+    · rename_i fe fo hfe hfo
+      injection h with h; subst h
+      obtain ⟨_, hfirst⟩ := firstK_lfp_correct hfe
+      have hfollow := followK_lfp_correct hfo
+      obtain ⟨x, hx, y, hy, rfl⟩ := mem_kcatSetRef.1 ht
+      obtain ⟨u, hu, rfl⟩ := (hfirst α x).1 hx
+      exact ⟨u, y, hu, followK_iff_ctx.2 ((hfollow A y).1 hy), take_append_take_left k u y⟩
+    · cases h
+
+/-- transitions leaving state `st` -/
+def laOuts (d : LaDfa) (st : Nat) : List Trans := d.trans.filter (fun tr => tr.src = st)
+
+/-- all (string, production) pairs accepted from state `st` (annotation `p`) along paths of
+    length ≤ fuel -/
+def laAccepted (d : LaDfa) : Nat → Nat → Int → List (List Nat × Int)
+  | 0, _, p => if p > -1 then [([], p)] else []
+  | f + 1, st, p =>
+    (if p > -1 then [([], p)] else []) ++
+    (laOuts d st).flatMap fun tr => (laAccepted d f tr.dst tr.prod).map fun wq => (tr.term :: wq.1, wq.2)
+
+/-- is there a path of more than `fuel` transitions from `st`? -/
+def laDeep (d : LaDfa) : Nat → Nat → Bool
+  | 0, st => !(laOuts d st).isEmpty
+  | f + 1, st => (laOuts d st).any fun tr => laDeep d f tr.dst
+
+theorem stepRef_mem_outs {d : LaDfa} {st a : Nat} {tr : Trans} (h : stepRef d st a = some tr) :
+    tr ∈ laOuts d st ∧ tr.term = a := by
+  unfold stepRef at h
+  have hm := List.mem_of_find?_eq_some h
+  have hp := List.find?_some h
+  simp only [decide_eq_true_eq] at hp
+  exact ⟨by simp [laOuts, hm, hp.1], hp.2⟩
+
+theorem runRef_mem_accepted (d : LaDfa) : ∀ (f st : Nat) (p : Int) (w : List Nat) (q : Int),
+    laDeep d f st = false → runRef d st p w = some q → (w, q) ∈ laAccepted d f st p := by
+  intro f
+  induction f with
+  | zero =>
+    intro st p w q hd hr
+    cases w with
+    | nil =>
+      simp only [runRef] at hr
+      split at hr
+      · injection hr with hr; subst hr; simp [laAccepted, *]
+      · cases hr
+    | cons a rest =>
+      simp only [runRef] at hr
+      split at hr
+      · rename_i tr htr
+        have := (stepRef_mem_outs htr).1
+        simp only [laDeep, Bool.not_eq_false', List.isEmpty_iff] at hd
+        rw [hd] at this; cases this
+      · cases hr
+  | succ f ih =>
+    intro st p w q hd hr
+    cases w with
+    | nil =>
+      simp only [runRef] at hr
+      split at hr
+      · injection hr with hr; subst hr; simp [laAccepted, *]
+      · cases hr
+    | cons a rest =>
+      simp only [runRef] at hr
+      split at hr
+      · rename_i tr htr
+        obtain ⟨hm, ht⟩ := stepRef_mem_outs htr
+        simp only [laDeep, List.any_eq_false] at hd
+        have hd' : laDeep d f tr.dst = false := by simpa using hd tr hm
+        have := ih tr.dst tr.prod rest q hd' hr
+        simp only [laAccepted, List.mem_append, List.mem_flatMap, List.mem_map]
+        right
+        exact ⟨tr, hm, (rest, q), this, by simp [ht]⟩
+      · cases hr
+
+/-- the reference lookahead sets of the productions of `A`, with their production numbers -/
+def laSetsRef (T : LLTables) (fuel A k : Nat) : List (Nat × Option TSet) :=
+  (T.prods.zipIdx.filter fun x => x.1.lhs = A).map fun x => (x.2, laRef (gOf T) k fuel A (ruleOf x.1).rhs)
+
+/-- Executable form of `AutomatonExact`. `depth` bounds the length of the automaton's paths. -/
+def autoExactB (T : LLTables) (fuel depth A : Nat) (d : LaDfa) : Bool :=
+  sortedTrans d.trans && !laDeep d depth 0 &&
+  ((laSetsRef T fuel A d.k).all fun jS =>
+    match jS.2 with
+    | none => false
+    | some S => S.all fun t => runRef d 0 d.prod0 t == some (jS.1 : Int)) &&
+  ((laAccepted d depth 0 d.prod0).all fun wq =>
+    (laSetsRef T fuel A d.k).any fun jS =>
+      match jS.2 with
+      | none => false
+      | some S => wq.2 == (jS.1 : Int) && S.contains wq.1)
+
+theorem mem_laSetsRef {T : LLTables} {fuel A k : Nat} {j : Nat} {oS : Option TSet} :
+    (j, oS) ∈ laSetsRef T fuel A k ↔
+      ∃ pq, T.prods[j]? = some pq ∧ pq.lhs = A ∧ oS = laRef (gOf T) k fuel A (ruleOf pq).rhs := by
+  simp only [laSetsRef, List.mem_map, List.mem_filter, decide_eq_true_eq, Prod.exists, Prod.mk.injEq,
+    List.mem_zipIdx_iff_getElem?]
+  constructor
+  · rintro ⟨pq, i, ⟨hi, hl⟩, rfl, rfl⟩
+    exact ⟨pq, by simpa using hi, hl, rfl⟩
+  · rintro ⟨pq, hpq, hl, rfl⟩
+    exact ⟨pq, j, ⟨by simpa using hpq, hl⟩, rfl, rfl⟩
+
+theorem autoExactB_sound {T : LLTables} {fuel depth A : Nat} {d : LaDfa}
+    (h : autoExactB T fuel depth A d = true) : AutomatonExact T A d := by
+  simp only [autoExactB, Bool.and_eq_true, Bool.not_eq_true', List.all_eq_true, List.any_eq_true] at h
+  obtain ⟨⟨⟨hs, hdeep⟩, hsets⟩, hacc⟩ := h
+  refine ⟨hs, fun t q => ⟨fun hr => ?_, ?_⟩⟩
+  · have hm := runRef_mem_accepted d depth 0 d.prod0 t q hdeep hr
+    obtain ⟨⟨j, oS⟩, hjS, hx⟩ := hacc (t, q) hm
+    obtain ⟨pq, hpq, hl, rfl⟩ := mem_laSetsRef.1 hjS
+    simp only at hx
+    split at hx
+    · cases hx
+    · rename_i S hS
+      simp only [Bool.and_eq_true, beq_iff_eq, List.contains_eq_mem, decide_eq_true_eq] at hx
+      exact ⟨j, pq, hx.1, hpq, hl, (LA_iff_laRef hS t).2 hx.2⟩
+  · rintro ⟨j, pq, rfl, hpq, hl, hLA⟩
+    have hjS := (mem_laSetsRef (T := T) (fuel := fuel) (A := A) (k := d.k) (j := j)).2 ⟨pq, hpq, hl, rfl⟩
+    have := hsets _ hjS
+    simp only at this
+    split at this
+    · cases this
+    · rename_i S hS
+      have := (List.all_eq_true.1 this) t ((LA_iff_laRef hS t).1 hLA)
+      simpa using this
+
+/-- Executable form of `SetsExact`. -/
+def setsExactB (T : LLTables) (fuel depth : Nat) : Bool :=
+  (T.prods.all fun pr => pr.rhsRev.all fun x => !PT.isE x) &&
+  (T.prods.all fun pr => !(pr.rhsRev.contains (PT.t 0))) &&
+  (T.prods.all fun pr =>
+    match T.dfas[pr.lhs]? with
+    | none => false
+    | some d => autoExactB T fuel depth pr.lhs d)
+
+theorem setsExactB_sound (T : LLTables) (fuel depth : Nat) (h : setsExactB T fuel depth = true) :
+    SetsExact T := by
+  simp only [setsExactB, Bool.and_eq_true, List.all_eq_true, Bool.not_eq_true',
+    List.contains_eq_mem, decide_eq_false_iff_not] at h
+  obtain ⟨⟨h1, h2⟩, h3⟩ := h
+  refine ⟨fun pr hpr x hx => h1 pr hpr x hx, fun pr hpr => h2 pr hpr, ?_⟩
+  intro pr hpr
+  have := h3 pr hpr
+  split at this
+  · cases this
+  · rename_i d hd
+    exact ⟨d, hd, autoExactB_sound this⟩
 
 end ParolModel
